@@ -127,6 +127,22 @@ PROPS = {
     ),
 }
 
+PROPS['C11'] = dict(
+    engine='drvsim', level='exploration',
+    quick=dict(count=60000), thorough=dict(budget_s=360),
+    shrink_paths=[['sources', 'mp_options'], ['sources', 'simdrv_options'], ['sources', 'argv'], ['sources', 'mydrv_options'], ['sources', 'other_options']],
+    rule='scenario = history of option sources (mp_options, <exe>_options for 5 exe path shapes incl. .exe/.app and directories, <solver>_options, argv) each a sequence of '
+         'assignment tokens from a grammar (name or inline / out-of-line / wildcard synonym in random letter case; "=", " = ", "= " or blank; int, real, plain or quoted string, '
+         'flag, list, wildcard key; name=?; unknown names; values given to a flag; integer literals beyond int) - 30% "totality" scenarios add torn / hostile tokens '
+         '(unterminated quotes, 64 KiB tokens, bytes >= 0x80, missing values) and are judged only for termination + memory safety. Texts are served by the getenv shim from '
+         'exact-size heap copies under ASan; the real BasicSolver::ParseOptions of a freshly built backend runs with the throwing or a recording error handler. '
+         'Oracle = reference map updated token by token in source order. Non-trivial = at least one source; distinct = (mode, sources, token kinds and options)',
+    assumptions=_DRV_ASSUME + ['ill-typed values (intopt=abc, 12abc) are generated only in the totality batch: the statement fixes no outcome for them',
+                               'a std::exception (e.g. logic_error for an empty option name) counts as a reported error in the totality batch',
+                               'string values on the command line are the rest of the argv element verbatim (FROM_COMMAND_LINE semantics)'],
+)
+
+
 PROPS_IOSIM = {
     'C02': dict(
         engine='iosim', level='exploration',
